@@ -10,10 +10,10 @@ from engine.hlib import Native, V, pick
 
 KEYSETS = [("a", "b", "c"), ("b", "a", "aa"), ("\U0001F600", "דּ", "a"), ("€", "$", "\u0080"), ("k\"q", "k\\", "k\n")]
 PERMS = [(0, 1, 2), (0, 2, 1), (1, 0, 2), (1, 2, 0), (2, 0, 1), (2, 1, 0)]
-INTS = [7, 0, -1, 1000000, 2 ** 53 + 1, 2 ** 60, 10 ** 17 + 1, -(2 ** 63), 10 ** 21, 2 ** 53]
+INTS = [7, 0, -1, 1000000, 2 ** 53 + 1, 2 ** 60, 10 ** 17 + 1, -(2 ** 63), 10 ** 21, 2 ** 53, 10 ** 400, -(10 ** 310)]
 # Python ints are numbers like any other: beyond 2^53 they are written as the double nearest to them would be (ECMAScript Number::toString)
 BIG_INT_TEXT = {2 ** 53 + 1: "9007199254740992", 2 ** 60: "1152921504606847000", 10 ** 17 + 1: "100000000000000000", -(2 ** 63): "-9223372036854776000",
-                10 ** 21: "1e+21", 2 ** 53: "9007199254740992"}
+                10 ** 21: "1e+21", 2 ** 53: "9007199254740992", 10 ** 400: None, -(10 ** 310): None}        # None: no double is near it -- must be refused
 # doubles whose ECMAScript form differs from Python's repr (known answers: RFC 8785 appendix B / ECMA-262 Number::toString); None = must be refused
 FLOATS = [(1.0, "1"), (-0.0, "0"), (1e-7, "1e-7"), (1e16, "10000000000000000"), (1.5, "1.5"), (1e21, "1e+21"), (5e-324, "5e-324"), (0.000001, "0.000001"),
           (float("nan"), None), (float("-inf"), None), (float("inf"), None), (1.152921504606847e18, "1152921504606847000"), (-1e-5, "-0.00001"),
@@ -57,6 +57,8 @@ def ref_ser(v):
     if v is False:
         return "false"
     if isinstance(v, int):
+        if BIG_INT_TEXT.get(v, "") is None:
+            raise Refused()
         return BIG_INT_TEXT.get(v, str(v))
     if isinstance(v, float):
         for f, text in FLOATS:
@@ -82,7 +84,7 @@ def leaf(kind, b, i):
         return STRS[i % len(STRS)]
     if kind == 4:
         return FLOATS[i % NF][0]
-    return INTS[(i + 3 * (i // 2)) % len(INTS)]
+    return INTS[i % len(INTS)]
 
 
 def encode(v):
@@ -141,8 +143,8 @@ def struct(k1: int, b1: bool, k2: int, b2: bool, k3: int, b3: bool, perm: int, s
 def run_case(shape, ks, perm, k1, b1, k2, b2, k3, b3):
     """all-concrete: the real pure-Python encoder vs the independent serializer, two insertion orders, parse-back fixed point"""
     li = (shape + ks) % 4
-    fi = li + perm * 2 + k1                    # floats rotate through the whole table
-    a, b, c = leaf(k1, b1, fi if k1 == 4 else li), leaf(k2, b2, fi + 5 if k2 == 4 else li + 1), leaf(k3, b3, fi + 9 if k3 == 4 else li + 2)
+    fi = li + perm * 2 + k1                    # floats and ints rotate through their whole tables
+    a, b, c = leaf(k1, b1, fi if k1 >= 3 else li), leaf(k2, b2, fi + 5 if k2 >= 3 else li + 1), leaf(k3, b3, fi + 9 if k3 >= 3 else li + 2)
     K = KEYSETS[ks]
     v = build(shape, K, perm, a, b, c)
     try:
